@@ -480,7 +480,7 @@ def _oracle_melody(d, p, io):
         s = start + i
         cur = [a for a in acc if a[7] <= s]
         if i >= L or not cur:
-            want = -2
+            want = -1 if i == L else -2      # padding on the right ends the sustained last note
         else:
             b = cur[-1]
             want = b[0] if b[7] == s else (-1 if b[8] == s else -2)
@@ -579,7 +579,10 @@ def _oracle_pianoroll(d, p, io):
     return None
 
 
-def _expected_prog_drum(sel):
+def _expected_prog_drum(d, p):
+    """What one Performance can hold: a single (program, is_drum) for the whole instrument (all of the
+    sequence's notes of that instrument, as _program_and_is_drum_from_sequence reads them)."""
+    sel = [n for n in d['notes'] if p['instrument'] is None or n[4] == p['instrument']]
     if all(n[6] for n in sel):
         return 0, True
     if all(not n[6] for n in sel):
@@ -611,7 +614,7 @@ def _oracle_perf(op, d, p, io):
         back = sequences_lib.quantize_note_sequence_absolute(m.to_sequence(velocity=p['default_velocity']), d['sps'])
     else:
         back = sequences_lib.quantize_note_sequence(m.to_sequence(velocity=p['default_velocity'], qpm=120.0), d['spq'])
-    prog, drum = _expected_prog_drum(sel)
+    prog, drum = _expected_prog_drum(d, p)
 
     def v(x):
         return pl.velocity_bin_to_velocity(pl.velocity_to_bin(x, nb), nb) if nb else p['default_velocity']
@@ -647,7 +650,7 @@ def _oracle_noteperf(d, p, io):
     ns = nsio.to_proto(d)
     m = _events_obj('noteperf', ns, p)
     back = sequences_lib.quantize_note_sequence_absolute(m.to_sequence(), d['sps'])
-    prog, drum = _expected_prog_drum(sel)
+    prog, drum = _expected_prog_drum(d, p)
     want = sorted([n[0], n[7], n[8], pl.velocity_bin_to_velocity(pl.velocity_to_bin(n[1], nb), nb), prog, int(drum)]
                   for n in sel)
     got = sorted([n.pitch, n.quantized_start_step, n.quantized_end_step, n.velocity, n.program, int(n.is_drum)]
@@ -664,6 +667,8 @@ def oracle(case, io):
     d, p = case['input']['seq'], case['input']['p']
     if io and io[0] == 'HARNESS-EXC':
         return {'kind': 'harness-exception', 'detail': io[1:]}
+    if op in ('melody', 'drums', 'chords') and d['spq'] and not d['tsigs']:
+        return None        # not a quantizer output (quantize_note_sequence always leaves a time signature)
     if op == 'melody':
         if not _wf(d):
             return None
